@@ -156,6 +156,7 @@ type Exec struct {
 	nestDepth int
 	oneShotMs int
 	hardMemo  map[*Term]bool
+	fixed     *Violation // concrete replay inside the interpreter
 }
 
 type nondetRec struct {
